@@ -267,15 +267,19 @@ def c13_shards(tier, prop="C13", mon="C13"):
         sh.append(duplex_cursor("queue-cursor-r%d" % ring, ring, prop, mon, budget=2, extra=dict(act="trigger,hold,queries")))
         sh.append(same_cmd("queue-samecmd-r%d" % ring, ring, prop, mon, extra=dict(act="trigger,queries")))
     if not quick:
-        sh.append(mcx("queue-traffic-r8", ring=8, prop=prop, table=T_Q, cap=12, shared=0, name_alpha="HK", max_name=2, args_alpha="1", max_args=0, suffix_mask=5, lines=0,
-                      refuse_read=1, refuse_write=1, codes_W="HOLD,OK", codes_U="OK", ecodes_R="OK", max_inv=1, tok=1, ev="+a:R,+d:R", act="trigger,hold,queries", trig_budget=0, mon=mon))
+        # larger capacities with command traffic: fixpoints at 4 and 5 (the space triples per slot), capacity 8 bounded by one line and nine triggers (enough to fill and overflow the ring)
+        for ring in (4, 5):
+            sh.append(mcx("queue-traffic-r%d" % ring, ring=ring, prop=prop, table=T_Q, cap=12, shared=0, name_alpha="HK", max_name=2, args_alpha="1", max_args=0, suffix_mask=5, lines=0,
+                          refuse_read=1, refuse_write=1, codes_W="HOLD,OK", codes_U="OK", ecodes_R="OK", max_inv=1, tok=1, ev="+a:R,+d:R", act="trigger,hold,queries", trig_budget=0, mon=mon))
+        sh.append(mcx("queue-traffic-r8-bounded", ring=8, prop=prop, table=T_Q, cap=12, shared=0, name_alpha="HK", max_name=2, args_alpha="1", max_args=0, suffix_mask=5, lines=1,
+                      refuse_read=1, refuse_write=1, codes_W="HOLD,OK", codes_U="OK", ecodes_R="OK", max_inv=1, tok=1, ev="+a:R,+d:R", act="trigger,hold,queries", trig_budget=9, mon=mon))
     return sh
 
 
 def p_c13(tier):
     return {"shards": c13_shards(tier), "require": ["ev_accepted", "ev_full", "ev_done", "ev_silent", "lines_hold"],
             "technique": "explicit-state model checking to the full fixpoint (no trigger budget, unbounded lines): refinement of an abstract bounded FIFO with hidden pop/finish steps",
-            "bounds": "capacities 1,2,3 with four event kinds, capacity 8 with two kinds; command traffic: one held command, one answering command; write refusals",
+            "bounds": "event machine alone: capacities 1,2,3 with four or five event kinds, capacity 8 with two kinds (fixpoints); with command traffic (one held command, one answering command): fixpoints at capacities 1,2,3%s; write refusals" % ("" if tier == "quick" else ", 4, 5 and capacity 8 bounded by one line and nine triggers"),
             "assumptions": ["event commands distinct from input-reachable commands"]}
 
 
